@@ -137,9 +137,9 @@ class IOCB(DebugContents):
         # store it
         self.ioCallback.append((fn, args, kwargs))
 
-        # already complete?
+        # already complete, the other callbacks have been made
         if self.ioComplete.isSet():
-            self.trigger()
+            fn(self, *args, **kwargs)
 
     def wait(self, *args, **kwargs):
         """Wait for the completion event to be set."""
